@@ -3,6 +3,7 @@ package seq
 import (
 	"bytes"
 	"fmt"
+	"strings"
 
 	ipfslog "berty.tech/go-ipfs-log"
 	"berty.tech/go-ipfs-log/entry"
@@ -160,6 +161,120 @@ func c18One(p *run.Part, spec entrySpec, wk string) {
 	}
 }
 
+// c18Logs: the property is about every block a log configured with a link key writes, whichever way the log
+// object was constructed. A keyed log is built (appends with skip references, a merge), re-opened through each
+// of the four loaders with the keyed codec given in LogOptions only (and also in FetchOptions), appended to
+// again, and every entry block then in the store is examined.
+func c18Logs(p *run.Part) {
+	for _, variant := range []string{"logopts-only", "both"} {
+		for _, loader := range []string{"none", "multihash", "entryhash", "json", "entry"} {
+			st := store.New()
+			kio := linkKeyIO("K1")
+			cc := c18Case{Writer: "K1", Reader: "K1", What: "log:" + loader + ":" + variant}
+			viol := func(key, what string) {
+				p.Violate("linkkey-log", "C18:log:"+key, fmt.Sprintf("keyed log re-opened through %s (%s): %s", loader, variant, what), cc)
+			}
+			a, err := ipfslog.NewLog(st, world.IDs[0], &ipfslog.LogOptions{ID: "X", IO: kio})
+			if err != nil {
+				panic(err)
+			}
+			b, _ := ipfslog.NewLog(st, world.IDs[1], &ipfslog.LogOptions{ID: "X", IO: kio})
+			app := func(l *ipfslog.IPFSLog, s string) {
+				if _, err := l.Append(world.Ctx, []byte(s), &ipfslog.AppendOptions{PointerCount: 4}); err != nil {
+					viol("append-failed", err.Error())
+				}
+			}
+			for i := 0; i < 4; i++ {
+				app(a, fmt.Sprintf("a%d", i))
+			}
+			app(b, "b0")
+			if _, err := a.Join(b, -1); err != nil {
+				viol("merge-failed", "merging two logs of the same key: "+err.Error())
+				continue
+			}
+			app(a, "a4")
+			l := a
+			if loader != "none" {
+				lo := &ipfslog.LogOptions{ID: "X", IO: kio}
+				var fio iface.IO
+				if variant == "both" {
+					fio = kio
+				}
+				heads := a.Heads().Slice()
+				switch loader {
+				case "multihash":
+					mh, err := a.ToMultihash(world.Ctx)
+					if err != nil {
+						viol("publish-failed", err.Error())
+						continue
+					}
+					l, err = ipfslog.NewFromMultihash(world.Ctx, st, world.IDs[0], mh, lo, &ipfslog.FetchOptions{})
+				case "entryhash":
+					l, err = ipfslog.NewFromEntryHash(world.Ctx, st, world.IDs[0], heads[0].GetHash(), lo, &ipfslog.FetchOptions{})
+				case "json":
+					l, err = ipfslog.NewFromJSON(world.Ctx, st, world.IDs[0], a.ToJSONLog(), lo, &iface.FetchOptions{IO: fio})
+				case "entry":
+					l, err = ipfslog.NewFromEntry(world.Ctx, st, world.IDs[0], heads, lo, &iface.FetchOptions{IO: fio})
+				}
+				if err != nil || l == nil {
+					viol("reopen-failed", fmt.Sprint(err))
+					continue
+				}
+				if l.Len() != a.Len() {
+					viol("reopen-incomplete", fmt.Sprintf("the re-opened log holds %d of %d entries", l.Len(), a.Len()))
+				}
+			}
+			app(l, "c0")
+			app(l, "c1")
+			p.Add(1, 1, 0, 1)
+			// every entry of the log as the keyed reader sees it, against the bytes stored for it
+			leaks := 0
+			for _, e := range l.Values().Slice() {
+				raw, ok := st.Raw(e.GetHash())
+				if !ok {
+					viol("block-missing", "no block for entry "+string(e.GetPayload()))
+					continue
+				}
+				nd, err := store.Decode(e.GetHash(), raw)
+				if err != nil {
+					viol("block-undecodable", err.Error())
+					continue
+				}
+				if n := len(nd.Links()); n != 0 {
+					leaks++
+					viol("leak:ipld-links", fmt.Sprintf("the block of entry %s exposes %d traversable links", string(e.GetPayload()), n))
+				}
+				for _, lk := range append(append([]cid.Cid{}, e.GetNext()...), e.GetRefs()...) {
+					if bytes.Contains(raw, lk.Bytes()) || bytes.Contains(raw, []byte(lk.Hash())) {
+						leaks++
+						viol("leak:binary-cid", fmt.Sprintf("the block of entry %s contains the identifier of one of its links", string(e.GetPayload())))
+					}
+					for _, t := range textForms(lk) {
+						if bytes.Contains(raw, t) {
+							leaks++
+							viol("leak:text-cid", fmt.Sprintf("the block of entry %s contains a text form of one of its links", string(e.GetPayload())))
+						}
+					}
+				}
+				if err := e.Verify(world.IDs[0].Provider, kio); err != nil {
+					viol("verify-failed", fmt.Sprintf("entry %s of the keyed log does not verify with the key: %v", string(e.GetPayload()), err))
+				}
+			}
+			// the whole log merges into a fresh log of the same key
+			dst, _ := ipfslog.NewLog(st, world.IDs[2], &ipfslog.LogOptions{ID: "X", IO: kio})
+			if _, err := dst.Join(l, -1); err != nil {
+				viol("merge-failed", "the re-opened and extended log does not merge into a log of the same key: "+err.Error())
+			} else if dst.Len() != l.Len() {
+				viol("merge-incomplete", fmt.Sprintf("merged %d of %d entries", dst.Len(), l.Len()))
+			}
+			if leaks == 0 {
+				p.Add(0, 0, 1, 0)
+			}
+			p.Nontriv(cc.What)
+		}
+	}
+}
+
 // mergeInto merges a one-entry source log holding e into an empty log with the same codec.
 func mergeInto(st *store.Store, writer int, e iface.IPFSLogEntry, io iface.IO) string {
 	es := entry.NewOrderedMap()
@@ -205,7 +320,9 @@ func init() {
 		if expired {
 			p.Inexhaustive("deadline")
 		}
+		c18Logs(p)
 		p.SetExtra("grammar_entries", len(g))
+		p.Sample(4, c18Case{Writer: "K1", Reader: "K1", What: "log:entry:logopts-only (keyed log re-opened with NewFromEntry, codec given in LogOptions only, then appended to)"})
 		p.Sample(4, c18Case{Spec: g[len(g)-1], Writer: "K1", Reader: "K2", What: "other key obtains no links"})
 		p.Sample(4, c18Case{Spec: g[len(g)/2], Writer: "K1", Reader: "K1", What: "same key recovers links, verifies, merges"})
 	}, Replay: func(p *run.Part, check string, raw []byte) {
@@ -214,6 +331,10 @@ func init() {
 			panic(err)
 		}
 		grammarInit()
+		if strings.HasPrefix(c.What, "log:") {
+			c18Logs(p)
+			return
+		}
 		c18One(p, c.Spec, c.Writer)
 	}})
 }
